@@ -99,7 +99,7 @@ def gen(rng, tier):
     # imports whose definitions alias their own objects (k: ${obj}): the fold is over the imports' VALUES, so it must hold
     # whatever expressions produced them; in-place merging through an alias shows up as a key nobody else defines changing
     from . import c10 as _c10
-    for c in _c10.alias_family():
+    for c in _c10.alias_family() + _c10.sparse_nesting_family():
         d = dict(c["def"])
         own_lit = [(k, e) for k, e in d["values"] if not k.startswith("seen_")]
         cases.append(dict(c, **{"def": {"imports": d["imports"], "values": own_lit}}))
@@ -136,6 +136,29 @@ def gen(rng, tier):
                 root = {"imports": [("A", True)], "values": [("zsrc", own_val), ("cfg", ("sym", [("name", "zsrc")])), ("cfg2", ("sym", [("name", "zsrc")]))]}
             envs["R"] = root
             cases.append(G.case_from_graph(envs, "R"))
+    # the REFERENCE route through the fold: a key that only the k-th layer below defines (k = 1..4), read from the root by
+    # ${t}, ${x.k}, ${x.o.d} and inside an interpolation, with the layers as sibling imports or as a chain of imports, the
+    # root with or without an own layer on the same keys (learnt from seeded change C01-l: the lookup of a reference stopped
+    # one layer below the nearest one while the exported fold stayed right)
+    for n in (2, 3, 4):
+        for chain in (False, True):
+            for own in (False, True):
+                envs = {}
+                for i in range(1, n + 1):
+                    envs["L%d" % i] = {"imports": [("L%d" % (i - 1), True)] if chain and i > 1 else [],
+                                       "values": [("t%d" % i, ("str", "top%d" % i)),
+                                                  ("x", ("obj", [("k%d" % i, ("num", str(i))),
+                                                                 ("o", ("obj", [("d%d" % i, ("num", str(10 * i)))]))]))]}
+                reads = []
+                for i in range(1, n + 1):
+                    reads += [("r_t%d" % i, ("sym", [("name", "t%d" % i)])),
+                              ("r_k%d" % i, ("sym", [("name", "x"), ("name", "k%d" % i)])),
+                              ("r_d%d" % i, ("sym", [("name", "x"), ("name", "o"), ("name", "d%d" % i)])),
+                              ("r_i%d" % i, G.norm_interp([("<", [("name", "x"), ("name", "o"), ("name", "d%d" % i)]), (">", None)]))]
+                ownv = [("x", ("obj", [("mine", ("bool", True)), ("o", ("obj", [("mine", ("bool", True))]))]))] if own else []
+                envs["R"] = {"imports": [("L%d" % n, True)] if chain else [("L%d" % i, True) for i in range(1, n + 1)],
+                             "values": ownv + reads}
+                cases.append(G.case_from_graph(envs, "R"))
     # random graphs
     ngraphs = 1500 if thorough else 220
     for _ in range(ngraphs):
